@@ -68,6 +68,20 @@ class Adapter:
             if got[0] != sc["start"] or got[1] - got[0] != sc.get("span_map", sc["span"]):
                 raise common.MachineryError(f"window placement not reproducible: {sc} -> {got}")
             subs.append(sb)
+        # subordinates whose add() was refused are NOT subordinates of this decoder: whatever they do
+        # (e.g. respond because another decoder selects them) must not reach this decoder's bus
+        outsiders = []
+        for k, sc in enumerate(cfg.get("rejected", [])):
+            sb = wishbone.Interface(addr_width=sc["aw"], data_width=sc["dw"], granularity=sc["gran"],
+                                    features=featset(sc["feat"]), path=(f"out{k}",))
+            sb.memory_map = MemoryMap(addr_width=max(1, sc["aw"] + lg(sc["dw"] // sc["gran"])),
+                                      data_width=sc["gran"])
+            try:
+                dec.add(sb, name=sc.get("name"), addr=sc.get("addr"), sparse=not sc["dense"])
+            except ValueError:
+                outsiders.append(sb)
+            else:
+                raise common.MachineryError("a subordinate recorded as refused was accepted on rebuild")
         b = dec.bus
         ins = {s: getattr(b, s) for s in ("adr", "cyc", "stb", "we", "sel", "dat_w")}
         for s in ("lock", "cti", "bte"):
@@ -81,6 +95,10 @@ class Adapter:
             for s in ("cyc", "stb", "we", "adr", "sel", "dat_w", "lock", "cti", "bte"):
                 if hasattr(sb, s):
                     outs[f"{s}{k}"] = getattr(sb, s)
+        for k, sb in enumerate(outsiders):
+            for s in ("ack", "dat_r", "err", "rty", "stall"):
+                if hasattr(sb, s):
+                    ins[f"x{s}{k}"] = getattr(sb, s)
         return dec, ins, outs, None, False
 
     def sim_input(self, cfg, i, r):
@@ -124,7 +142,7 @@ class Adapter:
         dec = wishbone.Decoder(addr_width=aw, data_width=dw, granularity=gran, features=featset(feat),
                                alignment=al)
         maw = aw + lg(g)
-        subs, pre = [], []
+        subs, pre, rejected = [], [], []
         for k in range(r.randint(0, 5)):
             dense = r.random() < 0.65
             sf = {f: r.randint(0, 1) for f in FEATS}
@@ -151,6 +169,9 @@ class Adapter:
             try:
                 start, stop, ratio = dec.add(sb, name=name, addr=addr, sparse=not dense)
             except ValueError:
+                if not pre or True:
+                    rejected.append({"dense": int(dense), "aw": saw, "dw": sdw, "gran": sgran, "feat": sf,
+                                     "addr": addr, "name": name, "after": len(subs)})
                 continue
             if stop - start < g:
                 raise common.MachineryError("generated a window smaller than one word")
@@ -160,7 +181,10 @@ class Adapter:
                          "span": min(stop - start, 1 << sb.memory_map.addr_width), "span_map": stop - start,
                          "explicit": explicit, "name": name, "align_to": pre})
             pre = []
-        return {"aw": aw, "dw": dw, "gran": gran, "g": g, "feat": feat, "al": al, "subs": subs}
+        # refused subordinates are only replayable when their refusal does not depend on the order of
+        # the later accepted ones: keep those refused after the LAST accepted subordinate
+        rejected = [x for x in rejected if x["after"] == len(subs)][:2]
+        return {"aw": aw, "dw": dw, "gran": gran, "g": g, "feat": feat, "al": al, "subs": subs, "rejected": rejected}
 
     def random_schedule(self, r, cfg, length):
         aw, dw, g = cfg["aw"], cfg["dw"], cfg["g"]
@@ -189,6 +213,12 @@ class Adapter:
                 for s in ("err", "rty", "stall"):
                     if sc["feat"][s]:
                         d[f"{s}{k}"] = r.randint(0, 1) if selected else 0
+            for k, sc in enumerate(cfg.get("rejected", [])):
+                d[f"xack{k}"] = r.randint(0, 1)
+                d[f"xdat_r{k}"] = r.getrandbits(sc["dw"])
+                for s in ("err", "rty", "stall"):
+                    if sc["feat"][s]:
+                        d[f"x{s}{k}"] = r.randint(0, 1)
             yield d
 
     def nontrivial(self, s):
